@@ -209,6 +209,10 @@ func c15Child(a *ChildArgs) {
 				[]string{"users", "orders"}, []string{"id", "n", "uid"}, []string{"count", "lower"}},
 			{"lower-case-niladic", "select current_date , Current_Timestamp , localtime , a from t where b < session_user", []string{"t"}, []string{"a", "b"}, nil},
 			{"array-constructor", "SELECT ARRAY [ 1 , f ( a ) , ( SELECT z FROM q ) ] FROM t", []string{"t", "q"}, []string{"a", "z"}, []string{"f"}},
+			// ordering by the alias of a select item (an output name, not a column reference)
+			{"order-by-alias", "SELECT a AS z , f ( b ) AS y FROM t ORDER BY z DESC , y", []string{"t"}, []string{"a", "b"}, []string{"f"}},
+			// names that merely fold to a value keyword under Unicode case rules are columns like any other
+			{"names-folding-to-niladic-keywords", "SELECT \u017fession_user , current_t\u0131me , a FROM t WHERE b < local\u0131me", []string{"t"}, []string{"\u017fession_user", "current_t\u0131me", "a", "b", "local\u0131me"}, nil},
 		} {
 			g := gen.New(rand.New(rand.NewSource(42)), nil)
 			var toks []gen.Tok
